@@ -403,15 +403,21 @@ def r06d(run, A: FuncInfo, B: FuncInfo):
         pv = [(n, c) for n, c in fa.all_calls() if call_attr(c) == "parse_value"]
         # candidates: local containers written in the same loop with the field name / aliases and read in a guard
         cands = set()
+        # bookkeeping containers are found by role, not by name: local containers fed with the field's name / aliases /
+        # raw value (never with a parse result, which exists on success only)
+        def _from_parse(node, e):
+            return "PARSED" in value_state(fa, node, e)
         for n in fa.cfg.nodes:
             if n.kind == "stmt":
                 for c in fa.calls_at(n):
                     if isinstance(c.func, ast.Attribute) and isinstance(c.func.value, ast.Name) \
-                            and c.func.attr in ("add", "append", "update") and c.func.value.id in ("parsed_keys", "used_alias"):
+                            and c.func.attr in ("add", "append", "update") and c.func.value.id in fa.rd.locals \
+                            and c.func.value.id not in f.params and c.args and not _from_parse(n, c.args[0]):
                         cands.add((c.func.value.id, n))
                 if isinstance(n.ast, ast.Assign) and isinstance(n.ast.targets[0], ast.Subscript) \
-                        and unparse(n.ast.targets[0].value) == "provided":
-                    cands.add(("provided", n))
+                        and isinstance(n.ast.targets[0].value, ast.Name) and n.ast.targets[0].value.id in fa.rd.locals \
+                        and n.ast.targets[0].value.id not in f.params and not _from_parse(n, n.ast.value):
+                    cands.add((n.ast.targets[0].value.id, n))
         for n, c in pv:
             marks = [m for nm, m in cands if fa.cfg.dominates(m, n)]
             if not marks:
